@@ -268,3 +268,27 @@ def gql_tokens(text: str) -> list[str] | None:
         else:
             return None
     return out
+
+
+# --------------------------------------------------------------------------------------------
+# minimisation (delta debugging, batched so that one TLC run judges a whole round of candidates)
+# --------------------------------------------------------------------------------------------
+
+def minimise_list(items: list, fails_batch, keep=lambda x: False) -> list:
+    """Greedy removal of single elements while the failure persists.  fails_batch(candidates) -> [bool] judges many
+    candidate lists at once (one compile batch + one TLC run).  Elements with keep(x) are never removed."""
+    cur = list(items)
+    while True:
+        idx = [i for i in range(len(cur)) if not keep(cur[i])]
+        if not idx:
+            return cur
+        singles = [cur[:i] + cur[i + 1:] for i in idx]
+        removable = [i for i, bad in zip(idx, fails_batch(singles)) if bad]
+        if not removable:
+            return cur
+        if len(removable) > 1:
+            combined = [x for j, x in enumerate(cur) if j not in removable]
+            if combined and fails_batch([combined])[0]:
+                cur = combined
+                continue
+        cur = cur[:removable[0]] + cur[removable[0] + 1:]
